@@ -162,3 +162,18 @@ pub fn read_util_variant(src: Source, items: &mut Vec<String>) -> io::Result<()>
     }
     Ok(())
 }
+
+/// `vcf::io::writer::Builder::build_from_writer` (see `align::write_sam_builder`).
+pub fn write_vcf_builder<W: Write>(w: W, p: &Parsed, bgzf: bool) -> io::Result<()> {
+    use noodles_vcf::io::{CompressionMethod, writer::Builder};
+    let mut w = Builder::default()
+        .set_compression_method(if bgzf { CompressionMethod::Bgzf } else { CompressionMethod::None })
+        .build_from_writer(w);
+    w.write_header(&p.header)?;
+    for r in &p.records {
+        w.write_variant_record(&p.header, r)?;
+    }
+    w.get_mut().flush()?;
+    super::kinds::call_before_drop();
+    Ok(())
+}
